@@ -101,9 +101,21 @@ func c08_9(c *core.Ctx, p *core.Prog) {
 	c.Stats["C08.9 index classes"] = len(classes)
 	for _, cl := range classes {
 		// methods of T
+		// methods of T, and the promoted methods of repository structs embedded in T (counters moved into an embedded
+		// sub-struct keep their methods callable on T; they cannot reach the index state, so they keep the invariant)
+		embedded := map[*types.Named]bool{}
+		if st := core.FlatStruct(cl.T); st != nil {
+			for k := 0; k < st.NumFields(); k++ {
+				if f := st.Field(k); f.Embedded() {
+					if n := core.NamedOf(f.Type()); n != nil && n != cl.T && n.Obj().Pkg() == cl.T.Obj().Pkg() {
+						embedded[n] = true
+					}
+				}
+			}
+		}
 		var methods []*ssa.Function
 		for _, fn := range fns {
-			if fn.Signature.Recv() != nil && core.NamedOf(fn.Signature.Recv().Type()) == cl.T {
+			if fn.Signature.Recv() != nil && (core.NamedOf(fn.Signature.Recv().Type()) == cl.T || embedded[core.NamedOf(fn.Signature.Recv().Type())]) {
 				methods = append(methods, fn)
 			}
 		}
